@@ -254,14 +254,23 @@ func applyCause(c string, a, b *hubx.Node) {
 }
 
 func c11Body(c1, c2 string, midHandshake bool, reconnect bool) func() {
+	return c11BodyT("mutual", c1, c2, midHandshake, reconnect)
+}
+
+// trust: mutual | pendingB (only A registered B: B holds an unanswered pairing request) | pendingA
+func c11BodyT(trust, c1, c2 string, midHandshake bool, reconnect bool) func() {
 	return func() {
 		simrt.ClearTraceHooks()
 		fakews.SetLatency(time.Millisecond)
 		mon := installCloseMonitor()
 		a := hubx.NewNode("A", 0, 4711)
 		b := hubx.NewNode("B", 1, 4712)
-		a.Hub.RegisterRemoteSKI(b.SKI)
-		b.Hub.RegisterRemoteSKI(a.SKI)
+		if trust != "pendingA" {
+			a.Hub.RegisterRemoteSKI(b.SKI)
+		}
+		if trust != "pendingB" {
+			b.Hub.RegisterRemoteSKI(a.SKI)
+		}
 		a.Start()
 		b.Start()
 		if !midHandshake {
@@ -355,6 +364,18 @@ func c11Scenarios(r *hx.Run) []hx.Scenario {
 		out = append(out, hx.Scenario{Name: "c11:pair:" + p[0] + "+" + p[1], Body: c11Body(p[0], p[1], false, false), Bounds: simrt.B(pb, 0, 0), Cfg: c11cfg})
 	}
 	for _, c := range []string{"disconnectA", "cutLink", "cancelA", "shutdownB"} {
+		out = append(out, hx.Scenario{Name: "c11:midhandshake:" + c, Body: c11Body(c, "", true, false), Bounds: simrt.B(pb, 0, 0), Cfg: c11cfg})
+	}
+	// connections that end while a pairing request is pending (one side never trusted the other)
+	for _, tr := range []string{"pendingB", "pendingA"} {
+		for _, c := range []string{"cutLink", "peerEOF", "disconnectA", "disconnectB", "unregisterA", "unregisterB", "cancelA", "shutdownB"} {
+			if !r.Thorough() && tr == "pendingA" && c != "cutLink" && c != "unregisterB" {
+				continue
+			}
+			out = append(out, hx.Scenario{Name: "c11:" + tr + ":" + c, Body: c11BodyT(tr, c, "", false, false), Bounds: simrt.B(pb, 0, 0), Cfg: c11cfg})
+		}
+	}
+	for _, c := range []string{"unregisterA", "unregisterB"} {
 		out = append(out, hx.Scenario{Name: "c11:midhandshake:" + c, Body: c11Body(c, "", true, false), Bounds: simrt.B(pb, 0, 0), Cfg: c11cfg})
 	}
 	for _, c := range []string{"disconnectA", "cutLink", "peerEOF"} {
